@@ -787,8 +787,8 @@ def unit_sites(B):
 
 def unit(rep, F, cg, only_files=None):
     rep.rule('UNIT', 'the offset operand of every str/String range-index (and split_at / truncate / insert / remove) has provenance in the byte family '
-             '(len, find, rfind, char_indices, literals) and never in the char-count family (StringExt::size, chars().count()): a char count used as '
-             'a byte offset mis-slices or panics on multi-byte input')
+             '(len, find, rfind, char_indices, literals) and never in the char-count family (StringExt::size, chars().count()), and conversely a chars() '
+             'iterator is never advanced (skip / take / nth) by a byte length: mixing the two units mis-slices or panics on multi-byte input')
     n = 0
 
     def transparent(term):
@@ -817,6 +817,28 @@ def unit(rep, F, cg, only_files=None):
             rep.add('UNIT', key, 'string slice of `%s` in %s uses byte offsets' % (base, name), not bad, B.loc(i),
                     '' if not bad else '%s slices `%s` at an offset computed from a CHARACTER count (%s): wrong slice or panic on multi-byte text' % (
                         name, base, '; '.join(sorted(set(bad)))))
+    # the converse confusion: a BYTE length used as a CHARACTER count on a chars() iterator
+    BYTE_LEN = ('<str>::len', '<std::string::String>::len', '<str>::find', '<str>::rfind', '<std::ffi::OsStr>::len')
+    for name in cg.names():
+        B = cg.body(name)
+        for i, t in B.calls():
+            c = t.get('callee') or ''
+            if c.split('::')[-1] not in ('skip', 'take', 'nth', 'nth_back', 'advance_by', 'step_by') or 'std::iter::' not in c:
+                continue
+            st = t.get('self_ty') or ''
+            if 'std::str::Chars' not in st and 'std::str::CharIndices' not in st:
+                continue
+            n += 1
+            bad = []
+            for r in B.op_origins(t['args'][1]):
+                if r[0] == 'call':
+                    ct = B.term(r[1])
+                    cc = ct.get('callee') or ''
+                    if cc in BYTE_LEN:
+                        bad.append('%s at %s' % (cc, B.loc(r[1])))
+            base = describe_operand(B, t['args'][0])
+            rep.add('UNIT', 'unit:%s|chars.%s' % (name, c.split('::')[-1]), 'character iterator `%s` in %s is advanced by a character count' % (base, name), not bad, B.loc(i),
+                    '' if not bad else '%s advances a chars() iterator by a BYTE length (%s): for multi-byte text too many characters are consumed' % (name, '; '.join(sorted(set(bad)))))
     rep.floor('UNIT', 'string slicing sites', n, 5)
     return n
 
